@@ -214,8 +214,10 @@ impl Run {
             "wall_s": wall,
             "violations": unknown.len(),
         });
-        let _ = std::fs::create_dir_all("/verif/evidence");
-        let path = format!("/verif/evidence/{}.json", self.property);
+        // NUNMC_EVIDENCE_DIR: only for trial runs against seeded changes (tools/try_seed_scratch.sh)
+        let dir = std::env::var("NUNMC_EVIDENCE_DIR").unwrap_or_else(|_| "/verif/evidence".to_string());
+        let _ = std::fs::create_dir_all(&dir);
+        let path = format!("{}/{}.json", dir, self.property);
         if let Err(e) = std::fs::write(&path, serde_json::to_string_pretty(&ev).unwrap()) {
             eprintln!("machinery: cannot write evidence {}: {}", path, e);
             return 2;
